@@ -122,6 +122,10 @@ func checkC05(p *Prog, r *Report) {
 					}
 				}
 			}
+			if g := globalRoot(nf); bad == "" && g != "" {
+				r.Bad(key, pos, "%s: the object written is (reached from) the package-level variable %s, which all goroutines share: unsynchronised write (a library object that is not safe for concurrent use, e.g. a *rand.Rand, kept in a package variable); origin %s", e.Desc, g, rootsString(nf))
+				continue
+			}
 			if bad != "" {
 				r.Bad(key, pos, "%s: shared memory reached through %s is written without synchronisation; origin %s", e.Desc, bad, rootsString(nf))
 			} else {
